@@ -8,7 +8,7 @@ import (
 
 // VV is the harness's model of a variant value (JSON-serialisable).
 type VV struct {
-	K     string `json:"k"` // null bool int8 int16 int32 int64 float double string binary date ts tsntz time tsns tsntzns uuid dec4 dec8 dec16 object array
+	K     string `json:"k"`           // null bool int8 int16 int32 int64 float double string binary date ts tsntz time tsns tsntzns uuid dec4 dec8 dec16 object array
 	I     int64  `json:"i,omitempty"` // ints, bool, float/double bits, date/time/timestamps, dec4/dec8
 	B     []byte `json:"b,omitempty"` // string, binary, uuid (16), dec16 (16 LE)
 	Scale int    `json:"scale,omitempty"`
